@@ -45,7 +45,18 @@ def make_wf(name, p, log):
     def allzero(d):
         return np.zeros(np.shape(d))
 
-    f = {"bins": bins, "inv": inv, "lin": lin, "const": const, "step0": step0, "allzero": allzero}[name]
+    # singular / huge at distance 0
+    def invd(d):
+        return p / d
+
+    def invd2(d):
+        return p / (d * d)
+
+    def invdt(d):
+        return 1.0 / (d + p)
+
+    f = {"bins": bins, "inv": inv, "lin": lin, "const": const, "step0": step0, "allzero": allzero,
+         "invd": invd, "invd2": invd2, "invdt": invdt}[name]
 
     def recorded(d):
         w = f(d)
